@@ -1,12 +1,13 @@
 (* C03 -- property theorems only.  Statements are about the model of the factorised-tensor modules
-   (Model/Factorized.v), for EVERY carrier F whose operations form a commutative ring, every order,
-   every mode size and every rank. *)
+   (Model/Factorized.v; round 7 additions in Model/Factorized2.v: tucker_to_tensor(modes=...) with any modes, 0-order inputs, the generic
+   einsum reading of the einsum TT-matrix route, cp_norm with conjugation; validator programs: Model/FactorizedSrc.v / FactorizedSrc2.v),
+   for EVERY carrier F whose operations form a commutative ring, every order, every mode size and every rank. *)
 From Coq Require Import List Arith ZArith Ring Lia Reals RealField.
 From TLV Require Import Base.Shape Base.PyList Base.Tensor Base.BigSum Base.Ops Model.Base Model.Factorized Model.FactorizedSrc Model.Factorized2 Model.FactorizedSrc2
   Proofs.FactorizedProofs Proofs.FactorizedProofs2 Proofs.FactorizedProofs3 Proofs.FactorizedProofs4
   Proofs.FactorizedProofs5 Proofs.FactorizedProofs6 Proofs.FactorizedProofs7 Proofs.FactorizedProofs8
   Proofs.FactorizedProofs9 Proofs.FactorizedProofs10 Proofs.FactorizedProofs11 Proofs.FactorizedProofs12 Proofs.FactorizedProofs13 Proofs.FactorizedProofs14
-  Proofs.BaseProofs6 Proofs.FactorizedProofs15 Proofs.FactorizedProofs16 Proofs.FactorizedProofs17 Proofs.FactorizedProofs18 Proofs.FactorizedProofs19 Proofs.FactorizedProofs20 Proofs.FactorizedProofs21 Proofs.FactorizedProofs22 Proofs.FactorizedProofs23 Proofs.FactorizedProofs24 Proofs.FactorizedProofs25.
+  Proofs.BaseProofs6 Proofs.FactorizedProofs15 Proofs.FactorizedProofs16 Proofs.FactorizedProofs17 Proofs.FactorizedProofs18 Proofs.FactorizedProofs19 Proofs.FactorizedProofs20 Proofs.FactorizedProofs21 Proofs.FactorizedProofs22 Proofs.FactorizedProofs23 Proofs.FactorizedProofs24 Proofs.FactorizedProofs25 Proofs.FactorizedProofs26 Proofs.FactorizedProofs27.
 From TLV Require Model.Tenalg.
 From Coq Require Import Sorting.Sorted Sorting.Permutation.
 Import ListNotations.
@@ -1008,3 +1009,81 @@ Example C03_ttm_einsum_reading_example :
   let cs := [mk [1; 2; 1; 2] [1; 2; 3; 4]%Z; mk [2; 1; 2; 1] [1; 0; -1; 2]%Z] in
   exists t, ttm_to_tensor_einsum Zops cs = Ok t /\ shape t = [2; 1; 1; 2] /\ t = ttm_einsum_generic Zops cs.
 Proof. cbv zeta. eexists. split; [vm_compute; reflexivity|]. split; vm_compute; reflexivity. Qed.
+
+(* ------------------------------------------------------------------ cp_norm on complex CP tensors (Proofs26) *)
+(* cj : a conjugation = a ring homomorphism of the carrier (complex conjugation; the identity on a real carrier).  cp_norm multiplies the
+   Gram matrices A_k^T conj(A_k) entrywise and then by w_r * w_s.  With the second weight conjugated (cp_normsq_conj .. true: the candidate
+   repair build/fix_candidates/C03_cp_norm_complex_weights) the number is the sum over all entries of entry * cj(entry) -- |entry|^2 --
+   for every order, rank and weights; the code as it is (.. false) agrees whenever the weights are self-conjugate (real weights,
+   weights=None, any factors) -- and is refuted for the weight i: a GENUINE DEFECT, known finding cp_norm_complex_weights *)
+Definition is_conj {F : Type} (Op : fops F) (cj : F -> F) : Prop :=
+  cj (f0 Op) = f0 Op /\ cj (f1 Op) = f1 Op /\ (forall a b, cj (fadd Op a b) = fadd Op (cj a) (cj b)) /\ (forall a b, cj (fmul Op a b) = fmul Op (cj a) (cj b)).
+Theorem C03_cp_normsq_conj : forall (F : Type) (Op : fops F), is_ring Op -> forall cj : F -> F, is_conj Op cj ->
+  forall (w : option (tensor F)) (fs : list (tensor F)) (shp : list nat) (R : nat),
+  validate_cp w fs = Ok (shp, R) -> Forall (fun f => ndim f = 2) fs ->
+  cp_normsq_conj Op cj true w fs =
+  Ok (sum_idx F (f0 Op) (fadd Op) shp (fun idx => fmul Op (cp_entry F Op w fs R idx) (cj (cp_entry F Op w fs R idx)))).
+Proof. intros F Op Rth cj (H0 & H1 & Ha & Hm). exact (cp_normsq_conj_spec F Op Rth cj H0 H1 Ha Hm). Qed.
+Print Assumptions C03_cp_normsq_conj.
+Theorem C03_cp_normsq_as_written_partial : forall (F : Type) (Op : fops F) (cj : F -> F) (w : option (tensor F)) (fs : list (tensor F)),
+  (forall s, cj (wv Op w s) = wv Op w s) -> cp_normsq_conj Op cj false w fs = cp_normsq_conj Op cj true w fs.
+Proof. exact cp_normsq_as_written_partial. Qed.
+Print Assumptions C03_cp_normsq_as_written_partial.
+(* on a carrier without conjugation both are the real model cp_normsq of C03_cp_normsq *)
+Theorem C03_cp_normsq_conj_id : forall (F : Type) (Op : fops F) (b : bool) (w : option (tensor F)) (fs : list (tensor F)),
+  cp_normsq_conj Op (fun x => x) b w fs = cp_normsq Op w fs.
+Proof. exact @cp_normsq_conj_id. Qed.
+Print Assumptions C03_cp_normsq_conj_id.
+Theorem C03_cp_norm_complex_weights_refuted :
+  exists (w : tensor Tenalg.GI) (fs : list (tensor Tenalg.GI)) t,
+    cp_to_tensor GIops (Some w) fs None = Ok t /\ data t = [(0, 1)%Z] /\
+    cp_normsq_conj GIops gconj false (Some w) fs = Ok (-1, 0)%Z /\
+    cp_normsq_conj GIops gconj true (Some w) fs = Ok (1, 0)%Z.
+Proof. exact cp_norm_complex_weights_refuted. Qed.
+Print Assumptions C03_cp_norm_complex_weights_refuted.
+(* the hypotheses are satisfiable: the Gaussian integers with complex conjugation (the carrier of the complex correspondence cases) *)
+Example C03_is_ring_conj_GI : is_ring GIops /\ is_conj GIops gconj.
+Proof. split; [exact GI_ring | exact gconj_hom]. Qed.
+
+(* ------------------------------------------------------------------ pairwise distinct modes: the order of the products does not matter (Proofs27) *)
+(* fit1 s (M, m): M is a non-empty matrix whose column count is the size s_m; mmd T ps: the mode products of ps one after the other *)
+Theorem C03_fit1_unfold : forall (F : Type) (Op : fops F) (s : list nat) (M : tensor F) (m : nat) (T : tensor F) (ps : list (tensor F * nat)),
+  (fit1 F s (M, m) <-> ndim M = 2 /\ m < length s /\ ncols M = nth m s 0 /\ 0 < nrows M) /\
+  mmd F Op T ps = multi_mode_dot_modes Op T (map fst ps) (map snd ps).
+Proof. intros. split; [unfold fit1; cbn [fst snd]; tauto | reflexivity]. Qed.
+Print Assumptions C03_fit1_unfold.
+(* two mode products along different modes commute: the same tensor either way *)
+Theorem C03_mode_dot_comm : forall (F : Type) (Op : fops F), is_ring Op -> forall (T M1 M2 : tensor F) (m1 m2 p1 p2 : nat),
+  wf T -> 0 < prod (shape T) -> m1 <> m2 -> m1 < length (shape T) -> m2 < length (shape T) ->
+  shape M1 = [p1; nth m1 (shape T) 0] -> shape M2 = [p2; nth m2 (shape T) 0] -> 0 < p1 -> 0 < p2 ->
+  exists t, rbind (mode_dot Op T M1 m1) (fun T' => mode_dot Op T' M2 m2) = Ok t /\
+            rbind (mode_dot Op T M2 m2) (fun T' => mode_dot Op T' M1 m1) = Ok t.
+Proof. exact mode_dot_comm. Qed.
+Print Assumptions C03_mode_dot_comm.
+(* hence ANY permutation of fitting (factor, mode) pairs with pairwise distinct modes gives the same tensor *)
+Theorem C03_mmd_perm : forall (F : Type) (Op : fops F), is_ring Op -> forall ps ps' : list (tensor F * nat), Permutation ps ps' ->
+  forall T : tensor F, wf T -> 0 < prod (shape T) -> Forall (fit1 F (shape T)) ps -> NoDup (map snd ps) -> mmd F Op T ps = mmd F Op T ps'.
+Proof. exact mmd_perm. Qed.
+Print Assumptions C03_mmd_perm.
+(* in particular the stably sorted order multi_mode_dot uses (the model the correspondence runs) and the list order (the fold of
+   C03_tucker_modes_ok_fits): tucker_to_tensor(modes=ms) for pairwise distinct modes given in any order *)
+Theorem C03_tucker_modes_any_order : forall (F : Type) (Op : fops F), is_ring Op -> forall (core : tensor F) (fs : list (tensor F)) (ms : list nat),
+  wf core -> 0 < prod (shape core) -> Forall (fit1 F (shape core)) (combine fs ms) -> NoDup (map snd (combine fs ms)) ->
+  tucker_to_tensor_modes_sorted Op core fs ms = tucker_to_tensor_modes Op core fs ms.
+Proof. exact tucker_modes_any_order. Qed.
+Print Assumptions C03_tucker_modes_any_order.
+Example C03_tucker_modes_any_order_hyps :
+  let core := mk [2; 2] [1; 0; -1; 2]%Z in let fs := [mk [3; 2] [1; 2; 3; 4; 5; 6]%Z; mk [1; 2] [1; -1]%Z] in
+  wf core /\ 0 < prod (shape core) /\ Forall (fit1 Z (shape core)) (combine fs [1; 0]) /\ NoDup (map snd (combine fs [1; 0])) /\
+  exists t, tucker_to_tensor_modes Zops core fs [1; 0] = Ok t /\ shape t = [1; 3].
+Proof.
+  cbv zeta. split; [reflexivity|]. split; [cbn; lia|]. split; [repeat constructor; cbn; lia|].
+  split; [cbn; repeat constructor; cbn; intuition lia|]. eexists. split; vm_compute; reflexivity.
+Qed.
+
+(* a repeated mode: two products along the SAME mode are the product with the matrix product M2 M1 (M1, the earlier factor, first) *)
+Theorem C03_mode_dot_twice : forall (F : Type) (Op : fops F), is_ring Op -> forall (T M1 M2 : tensor F) (m p1 p2 : nat),
+  wf T -> 0 < prod (shape T) -> m < length (shape T) -> shape M1 = [p1; nth m (shape T) 0] -> shape M2 = [p2; p1] -> 0 < p1 ->
+  exists t M21, mdot Op M2 M1 = Ok M21 /\ rbind (mode_dot Op T M1 m) (fun T' => mode_dot Op T' M2 m) = Ok t /\ mode_dot Op T M21 m = Ok t.
+Proof. exact mode_dot_twice. Qed.
+Print Assumptions C03_mode_dot_twice.
